@@ -1339,3 +1339,114 @@ func ruleSIZESENT(w *World, r *Report) {
 	}
 	r.floor("SIZESENT", "assignments of the shard size", n, 1)
 }
+
+// ---------------------------------------------------------------------------
+// PATHORDER: the list of input paths is not reordered by how the paths are spelled
+
+const rulePATHORDERText = "inputs keep their order: in par1.create / par2.create (and their private helpers) the list of data-file paths is not handed to a sort function - an order derived from the spelling of the paths (./b.dat sorts before a.dat) makes the volume set depend on how the same files were named on the command line"
+
+func rulePATHORDER(w *World, r *Report) {
+	r.rule("PATHORDER", rulePATHORDERText)
+	n := 0
+	for _, name := range []string{"par1.create", "par2.create"} {
+		fn := w.Fn(name)
+		if fn == nil || len(fn.Params) < 3 {
+			r.unk("PATHORDER", name, "", "function not found")
+			continue
+		}
+		n++
+		paths := ssa.Value(fn.Params[2])
+		bad := ""
+		for _, f := range region(fn) {
+			for _, c := range callInstrs(f) {
+				cn := calleeName(c.Common())
+				if !strings.HasPrefix(cn, "sort.") && !strings.HasPrefix(cn, "slices.Sort") {
+					continue
+				}
+				if len(c.Common().Args) == 0 {
+					continue
+				}
+				dep := false
+				backSlice(c.Common().Args[0], func(v ssa.Value) bool {
+					if w.up(v) == paths || v == paths {
+						dep = true
+					}
+					return !dep
+				})
+				if dep {
+					bad = cn + " at " + w.ipos(c)
+				}
+			}
+		}
+		if bad != "" {
+			r.bad("PATHORDER", name, w.pos(fn.Pos()), "the input path list (or a copy of it) is sorted by "+bad+": the order of the entries, and with it every hash and parity byte, depends on the spelling of the paths")
+		} else {
+			r.ok("PATHORDER", name, w.pos(fn.Pos()), "the input path list is not sorted")
+		}
+	}
+	r.floor("PATHORDER", "create functions", n, 2)
+}
+
+// ---------------------------------------------------------------------------
+// ALLOCBOUND: nothing is allocated from a declared file length before it has been checked
+
+const ruleALLOCBOUNDText = "no allocation from an unchecked declared length: in the Repair methods of par1 and par2 a make whose length or capacity depends on an entry's declared size (byteCount / FileBytes) is dominated by a comparison of that size with the length of data actually held (the reconstructed slices or the shard) - a well-checksummed description packet can declare 2^62 bytes"
+
+func ruleALLOCBOUND(w *World, r *Report) {
+	r.rule("ALLOCBOUND", ruleALLOCBOUNDText)
+	n := 0
+	isSize := func(v ssa.Value) bool {
+		p := resolvedPath(stripAllConv(v)).Path
+		return strings.HasSuffix(p, ".byteCount") || strings.HasSuffix(p, ".FileBytes")
+	}
+	for _, name := range []string{"(*par1.Decoder).Repair", "(*par2.Decoder).Repair"} {
+		fn := w.Fn(name)
+		if fn == nil {
+			r.unk("ALLOCBOUND", name, "", "function not found")
+			continue
+		}
+		n++
+		k := 0
+		for _, f := range region(fn) {
+			for _, b := range f.Blocks {
+				for _, in := range b.Instrs {
+					mk, ok := in.(*ssa.MakeSlice)
+					if !ok {
+						continue
+					}
+					var size ssa.Value
+					for _, opnd := range []ssa.Value{mk.Len, mk.Cap} {
+						backSlice(opnd, func(v ssa.Value) bool {
+							if isSize(v) {
+								size = v
+							}
+							return size == nil
+						})
+					}
+					if size == nil {
+						continue
+					}
+					key := fmt.Sprintf("%s:make#%d", shortName(f), k)
+					k++
+					guarded := false
+					for _, c := range w.factsAt(mk) {
+						if c.Y == nil {
+							continue
+						}
+						for _, pr := range [][2]ssa.Value{{c.X, c.Y}, {c.Y, c.X}} {
+							if isSize(pr[0]) && isBuiltinCall(stripAllConv(pr[1]), "len") != nil {
+								guarded = true
+							}
+						}
+					}
+					if guarded {
+						r.ok("ALLOCBOUND", key, w.ipos(mk), "allocation after the declared size was compared with the data held")
+					} else {
+						r.bad("ALLOCBOUND", key, w.ipos(mk), "a buffer is allocated from the declared size "+size.Name()+" before that size has been compared with the data actually present: a description packet declaring an enormous length makes Repair panic (makeslice) or reserve memory out of proportion")
+					}
+				}
+			}
+		}
+	}
+	r.floor("ALLOCBOUND", "Repair methods examined", n, 2)
+}
